@@ -10,6 +10,7 @@ import os
 import sys
 
 YEARS = (1900, 2000, 2001, 2004, 2100, 0, -1)
+_PERSIST = {}
 
 
 def items(repo):
@@ -100,6 +101,18 @@ def items(repo):
             if len(res) >= n:
                 break
         return res
+    # one recurrence object kept for the whole process and indexed at
+    # growing positions: whatever it remembers between calls must not depend
+    # on the mode that was active then
+    def persistent():
+        obj = _PERSIST.get(id(repo))
+        if obj is None:
+            obj = P.TimeRecurrenceParser(P.TimePointParser(
+                assumed_time_zone=(0, 0))).parse("R/2021-02-26T00Z/P1D")
+            _PERSIST[id(repo)] = obj
+        return obj
+    for k in (1, 3, 4, 6, 9):
+        add("recidx/%d" % k, lambda k=k: str(persistent()[k]))
     add("rec/daily", lambda: rec("R5/2000-02-27T00Z/P1D", 5))
     add("rec/monthly", lambda: rec("R3/2001-01-30T00Z/P1M", 3))
     add("rec/reverse", lambda: rec("R/P1W/2004-01-05T00Z", 3))
